@@ -381,7 +381,8 @@ where
             let exponent = -(diff * diff) / (two * var);
             lp += exponent;
         }
-        lp += -d * T::from(0.5).unwrap() * (var * T::from(PI).unwrap() * self.std * self.std).ln();
+        // normalisation of d independent N(from_i, std^2) factors: -d/2 * ln(2 pi std^2)
+        lp += -d * T::from(0.5).unwrap() * (two * T::from(PI).unwrap() * var).ln();
         lp
     }
 
